@@ -1189,6 +1189,7 @@ pub fn run_c02(r: &Runner) {
         });
     }
     families_phase(r, "prefix", &any_entry, check_c02);
+    repeat_boundary_phase(r, "prefix", &any_entry, check_c02);
     chunk_sweep_phase(r, "prefix", check_c02);
     // extension direction: heads from the hygiene sweeps followed by 72 bytes of padding, so
     // that the same head is scanned once inside the last <32 bytes of a buffer and once
@@ -1263,6 +1264,7 @@ pub fn run_c03(r: &Runner) {
         });
     }
     families_phase(r, "frame", &any_entry, check_c03);
+    repeat_boundary_phase(r, "frame", &any_entry, check_c03);
     chunk_sweep_phase(r, "frame", check_c03);
     literal_sweep(r, "frame", check_c03);
     let g = GenSpec { kinds: &ALL_KINDS, profile: Profile { truncate: 40, ..Profile::DEFAULT }, generous_cap: false, cfg_mask: 0x7f, cfg_entry_only: false };
@@ -1286,6 +1288,7 @@ pub fn run_c03(r: &Runner) {
 
 pub fn run_c04(r: &Runner) {
     families_phase(r, "zerocopy", &msg_entry, check_c04);
+    repeat_boundary_phase(r, "zerocopy", &msg_entry, check_c04);
     literal_sweep(r, "zerocopy", check_c04);
     {
         // 256 values at every position of the hygiene bases
@@ -1332,6 +1335,7 @@ pub fn run_c04(r: &Runner) {
 
 pub fn run_c05(r: &Runner) {
     families_phase(r, "hygiene", &msg_entry, check_c05);
+    repeat_boundary_phase(r, "hygiene", &msg_entry, check_c05);
     literal_sweep(r, "hygiene", check_c05);
     c05_sweeps(r);
     c05_lanes(r, if r.quick() { 70 } else { 140 });
@@ -1361,6 +1365,16 @@ fn rr_entry(e: Entry, _c: u8) -> bool {
 pub fn run_c15(r: &Runner) {
     // scale families: part 1 on the family's message, part 2 with every other-kind bit set
     families_phase(r, "c15-default-accepted", &rr_entry, |r, ctx, l, rec| {
+        let mut a = rec.clone();
+        a.entry = Entry::cfg_entry(rec.kind());
+        check_c15(r, ctx, l, &a)?;
+        let other = if rec.kind() == Kind::Request { RESPONSE_ONLY_BITS } else { REQUEST_ONLY_BITS };
+        let mut b = a.clone();
+        b.sub = std::borrow::Cow::Borrowed("c15-other-kind");
+        b.aux = vec![(rec.cfg ^ other) as u64];
+        check_c15(r, ctx, l, &b)
+    });
+    repeat_boundary_phase(r, "c15-default-accepted", &rr_entry, |r, ctx, l, rec| {
         let mut a = rec.clone();
         a.entry = Entry::cfg_entry(rec.kind());
         check_c15(r, ctx, l, &a)?;
@@ -1423,6 +1437,7 @@ pub fn run_c15(r: &Runner) {
 
 pub fn run_c16(r: &Runner) {
     families_phase(r, "c16-same-kind", &rr_entry, check_c16);
+    repeat_boundary_phase(r, "c16-same-kind", &rr_entry, check_c16);
     let g = GenSpec { kinds: &RR_KINDS, profile: Profile::DEFAULT, generous_cap: false, cfg_mask: 0x7f, cfg_entry_only: true };
     r.par_random(
         "G1 messages × configs × capacities 0..=k+2: the 4 request / 4 response entry points",
@@ -1573,6 +1588,7 @@ pub fn run_c16(r: &Runner) {
 
 pub fn run_c17(r: &Runner) {
     families_phase(r, "storage", &msg_entry, check_c17);
+    repeat_boundary_phase(r, "storage", &msg_entry, check_c17);
     // many header lines: k in a set around 256 and beyond, capacities around k and well above
     {
         const KS: [usize; 12] = [20, 64, 200, 255, 256, 257, 300, 1000, 4000, 4097, 9000, 70000];
